@@ -1,1 +1,2 @@
+pub mod s;
 pub mod u;
